@@ -119,9 +119,17 @@ func (w *c09World) opDeposit() {
 			hook = ""
 		}
 	}
-	res := e.L2.DeliverGas(100_000_000, msg)
+	fault := ""
+	var res sim.Result
+	if hook == "" && !bad && amt.IsPositive() && w.rng.Chance(10) {
+		// the mint or the transfer to the recipient fails or panics underneath the handler (a panicking send restriction,
+		// recipient-side logic): the deposit must end as a refund with no net mint
+		res, fault = w.deliverWithBankFault(msg)
+	} else {
+		res = e.L2.DeliverGas(100_000_000, msg)
+	}
 	w.run.Evaluations++
-	w.log = append(w.log, fmt.Sprintf("deposit seq=%d to=%s %s%s base=%s hook=%q -> %s %s", w.nextL1, short(to), amt, short(l2d), base, hook, res.Class, res.ErrString()))
+	w.log = append(w.log, fmt.Sprintf("deposit seq=%d to=%s %s%s base=%s hook=%q fault=%q -> %s %s", w.nextL1, short(to), amt, short(l2d), base, hook, fault, res.Class, res.ErrString()))
 	if res.Class != sim.OK {
 		w.run.Check("C09.deposit_processed", false, "c09.deposit_failed", w.tr(), "in-order deposit failed: %s", res.ErrString())
 		return
@@ -154,6 +162,36 @@ func (w *c09World) opDeposit() {
 		w.run.Check("C09.exactly_one_event", len(evs) == 0, "c09.credit_event_count", w.tr(), "a credited deposit announced %d withdrawals", len(evs))
 	}
 	w.invariants()
+}
+
+// deliverWithBankFault delivers msg with an error or a panic injected at the handler's MintCoins or
+// SendCoinsFromModuleToAccount call (the call index is found by a recording run on a discarded branch).
+func (w *c09World) deliverWithBankFault(msg sdk.Msg) (sim.Result, string) {
+	l2 := w.e.L2
+	shadow, spec := l2.Shadow, l2.Speculate
+	l2.Shadow, l2.Speculate = nil, false // foreign calls would shift the call indices
+	defer func() { l2.Shadow, l2.Speculate = shadow, spec }()
+	rec := l2.Branch()
+	l2.F.Arm(-1, sim.FaultError)
+	rec.DeliverGas(100_000_000, msg)
+	calls := append([]sim.Call(nil), l2.F.Calls...)
+	l2.F.Disarm()
+	want := mon.Pick(w.rng, []string{"MintCoins", "SendCoinsFromModuleToAccount"})
+	kind := mon.Pick(w.rng, []sim.FaultKind{sim.FaultError, sim.FaultPanic})
+	for i, c := range calls {
+		if c.Name == want && c.Layer == "opchild.bank" {
+			l2.F.Arm(i, kind)
+			res := l2.DeliverGas(100_000_000, msg)
+			fired := l2.F.Fired
+			l2.F.Disarm()
+			if fired {
+				w.feat["bank_fault_"+kind.String()]++
+				return res, fmt.Sprintf("%s at %s", kind, want)
+			}
+			return res, ""
+		}
+	}
+	return l2.DeliverGas(100_000_000, msg), ""
 }
 
 func (w *c09World) opWithdraw() {
